@@ -18,6 +18,9 @@ RULE = (
     "product scopes; distinct = sha1 of the case."
 )
 ASSUMPTIONS = [
+    "to_joint_gaussian rounds mean and covariance to 8 decimals by design; comparisons of the joint use 2e-7, and the "
+    "tolerance of predict() grows with the amplification |S_bb^-1| (1 + |K|) of that rounding (false alarm of the "
+    "first thorough run: 1.2e-6 on a well-conditioned chain with variance 0.05)",
     "numpy / scipy linear algebra is the trusted base of the reference",
     "to_joint_gaussian rounds to 8 decimals: tolerance 2e-7 absolute",
     "fit: residual variance may use any of RSS/n, RSS/(n-1), RSS/(n-p-1)",
@@ -157,13 +160,18 @@ def check_lgbn(case, out):
                     mu_c = np.asarray(mu_c, dtype=float).reshape(len(case["rows"]), -1)
                     cov_c = np.atleast_2d(np.asarray(cov_c, dtype=float))
                     scale = max(1.0, float(np.max(np.abs(cov))))
+                    # the library rounds the joint mean and covariance to 8 decimals by design (to_joint_gaussian): an entry
+                    # may be off by 5e-9, and the conditional formulas amplify that by about |S_bb^-1| (1 + |K|) per observed
+                    # variable; the tolerance follows that bound (with a factor 4), not a fixed number
+                    amp = max(1.0, len(oi) * float(np.max(np.sum(np.abs(np.linalg.inv(S_bb)), axis=1))) * (1.0 + float(np.max(np.sum(np.abs(K), axis=1)))))
                     for r_i, row in enumerate(case["rows"]):
                         want_mu = mu[mi] + K @ (np.array(row) - mu[oi])
-                        if mu_c.shape[1] != len(vs) or np.max(np.abs(mu_c[r_i] - want_mu[perm])) > 1e-6 * max(1.0, np.max(np.abs(want_mu))):
+                        tol_mu = 1e-6 * max(1.0, np.max(np.abs(want_mu))) + 2e-8 * amp * max(1.0, float(np.max(np.abs(np.array(row) - mu[oi]))))
+                        if mu_c.shape[1] != len(vs) or np.max(np.abs(mu_c[r_i] - want_mu[perm])) > tol_mu:
                             out.fail("predict:conditional_mean" + ("[several_missing]" if len(vs) > 1 else ""), f"missing={vs} row={row} got={mu_c[r_i].tolist()} want={want_mu[perm].tolist()}")
                             break
                     wc = want_cov[np.ix_(perm, perm)]
-                    if cov_c.shape != wc.shape or np.max(np.abs(cov_c - wc)) > 1e-6 * scale:
+                    if cov_c.shape != wc.shape or np.max(np.abs(cov_c - wc)) > 1e-6 * scale + 2e-8 * amp * max(1.0, float(np.max(np.abs(S_ab)))):
                         out.fail("predict:conditional_covariance" + ("[several_missing]" if len(vs) > 1 else ""), f"missing={vs} got={cov_c.tolist()} want={wc.tolist()}")
                     if len(case["missing"]) >= 2:
                         out.nontrivial = True
